@@ -28,6 +28,12 @@ theories/Gen/C07Consts_ok.vos theories/Gen/C07Consts_ok.vok theories/Gen/C07Cons
 theories/Gen/C12Window.vo theories/Gen/C12Window.glob theories/Gen/C12Window.v.beautified theories/Gen/C12Window.required_vo: theories/Gen/C12Window.v theories/Model/CompilerCache.vo
 theories/Gen/C12Window.vio: theories/Gen/C12Window.v theories/Model/CompilerCache.vio
 theories/Gen/C12Window.vos theories/Gen/C12Window.vok theories/Gen/C12Window.required_vos: theories/Gen/C12Window.v theories/Model/CompilerCache.vos
+theories/Gen/C16Startup.vo theories/Gen/C16Startup.glob theories/Gen/C16Startup.v.beautified theories/Gen/C16Startup.required_vo: theories/Gen/C16Startup.v theories/Model/Jobserver.vo
+theories/Gen/C16Startup.vio: theories/Gen/C16Startup.v theories/Model/Jobserver.vio
+theories/Gen/C16Startup.vos theories/Gen/C16Startup.vok theories/Gen/C16Startup.required_vos: theories/Gen/C16Startup.v theories/Model/Jobserver.vos
+theories/Gen/C16Startup_ok.vo theories/Gen/C16Startup_ok.glob theories/Gen/C16Startup_ok.v.beautified theories/Gen/C16Startup_ok.required_vo: theories/Gen/C16Startup_ok.v theories/Model/Jobserver.vo theories/Gen/C16Startup.vo
+theories/Gen/C16Startup_ok.vio: theories/Gen/C16Startup_ok.v theories/Model/Jobserver.vio theories/Gen/C16Startup.vio
+theories/Gen/C16Startup_ok.vos theories/Gen/C16Startup_ok.vok theories/Gen/C16Startup_ok.required_vos: theories/Gen/C16Startup_ok.v theories/Model/Jobserver.vos theories/Gen/C16Startup.vos
 theories/Gen/C18Consts.vo theories/Gen/C18Consts.glob theories/Gen/C18Consts.v.beautified theories/Gen/C18Consts.required_vo: theories/Gen/C18Consts.v 
 theories/Gen/C18Consts.vio: theories/Gen/C18Consts.v 
 theories/Gen/C18Consts.vos theories/Gen/C18Consts.vok theories/Gen/C18Consts.required_vos: theories/Gen/C18Consts.v 
@@ -127,6 +133,9 @@ theories/Model/PpTimeline.vos theories/Model/PpTimeline.vok theories/Model/PpTim
 theories/Model/ReqSM.vo theories/Model/ReqSM.glob theories/Model/ReqSM.v.beautified theories/Model/ReqSM.required_vo: theories/Model/ReqSM.v theories/Base/Sx.vo theories/Model/Stats.vo
 theories/Model/ReqSM.vio: theories/Model/ReqSM.v theories/Base/Sx.vio theories/Model/Stats.vio
 theories/Model/ReqSM.vos theories/Model/ReqSM.vok theories/Model/ReqSM.required_vos: theories/Model/ReqSM.v theories/Base/Sx.vos theories/Model/Stats.vos
+theories/Model/ReqSMExt.vo theories/Model/ReqSMExt.glob theories/Model/ReqSMExt.v.beautified theories/Model/ReqSMExt.required_vo: theories/Model/ReqSMExt.v theories/Base/Sx.vo theories/Model/Stats.vo theories/Model/ReqSM.vo
+theories/Model/ReqSMExt.vio: theories/Model/ReqSMExt.v theories/Base/Sx.vio theories/Model/Stats.vio theories/Model/ReqSM.vio
+theories/Model/ReqSMExt.vos theories/Model/ReqSMExt.vok theories/Model/ReqSMExt.required_vos: theories/Model/ReqSMExt.v theories/Base/Sx.vos theories/Model/Stats.vos theories/Model/ReqSM.vos
 theories/Model/RoCache.vo theories/Model/RoCache.glob theories/Model/RoCache.v.beautified theories/Model/RoCache.required_vo: theories/Model/RoCache.v theories/Base/Sx.vo theories/Model/Lru.vo
 theories/Model/RoCache.vio: theories/Model/RoCache.v theories/Base/Sx.vio theories/Model/Lru.vio
 theories/Model/RoCache.vos theories/Model/RoCache.vok theories/Model/RoCache.required_vos: theories/Model/RoCache.v theories/Base/Sx.vos theories/Model/Lru.vos
@@ -352,9 +361,9 @@ theories/Properties/C12.vos theories/Properties/C12.vok theories/Properties/C12.
 theories/Properties/C13.vo theories/Properties/C13.glob theories/Properties/C13.v.beautified theories/Properties/C13.required_vo: theories/Properties/C13.v theories/Base/Sx.vo theories/Model/DistStatus.vo theories/Model/DistFallback.vo theories/Model/DistArgs.vo theories/Model/DistHistory.vo theories/Model/DistRustInputs.vo theories/Model/DistPaths.vo theories/Proofs/DistStatus.vo theories/Proofs/DistFallback.vo theories/Proofs/DistArgs.vo theories/Proofs/DistHistory.vo theories/Proofs/DistRustInputs.vo theories/Proofs/DistPaths.vo
 theories/Properties/C13.vio: theories/Properties/C13.v theories/Base/Sx.vio theories/Model/DistStatus.vio theories/Model/DistFallback.vio theories/Model/DistArgs.vio theories/Model/DistHistory.vio theories/Model/DistRustInputs.vio theories/Model/DistPaths.vio theories/Proofs/DistStatus.vio theories/Proofs/DistFallback.vio theories/Proofs/DistArgs.vio theories/Proofs/DistHistory.vio theories/Proofs/DistRustInputs.vio theories/Proofs/DistPaths.vio
 theories/Properties/C13.vos theories/Properties/C13.vok theories/Properties/C13.required_vos: theories/Properties/C13.v theories/Base/Sx.vos theories/Model/DistStatus.vos theories/Model/DistFallback.vos theories/Model/DistArgs.vos theories/Model/DistHistory.vos theories/Model/DistRustInputs.vos theories/Model/DistPaths.vos theories/Proofs/DistStatus.vos theories/Proofs/DistFallback.vos theories/Proofs/DistArgs.vos theories/Proofs/DistHistory.vos theories/Proofs/DistRustInputs.vos theories/Proofs/DistPaths.vos
-theories/Properties/C14.vo theories/Properties/C14.glob theories/Properties/C14.v.beautified theories/Properties/C14.required_vo: theories/Properties/C14.v theories/Base/Sx.vo theories/Model/Stats.vo theories/Model/ReqSM.vo theories/Proofs/Stats.vo theories/Proofs/ReqSM.vo
-theories/Properties/C14.vio: theories/Properties/C14.v theories/Base/Sx.vio theories/Model/Stats.vio theories/Model/ReqSM.vio theories/Proofs/Stats.vio theories/Proofs/ReqSM.vio
-theories/Properties/C14.vos theories/Properties/C14.vok theories/Properties/C14.required_vos: theories/Properties/C14.v theories/Base/Sx.vos theories/Model/Stats.vos theories/Model/ReqSM.vos theories/Proofs/Stats.vos theories/Proofs/ReqSM.vos
+theories/Properties/C14.vo theories/Properties/C14.glob theories/Properties/C14.v.beautified theories/Properties/C14.required_vo: theories/Properties/C14.v theories/Base/Sx.vo theories/Model/Stats.vo theories/Model/ReqSM.vo theories/Model/ReqSMExt.vo theories/Proofs/Stats.vo theories/Proofs/ReqSM.vo
+theories/Properties/C14.vio: theories/Properties/C14.v theories/Base/Sx.vio theories/Model/Stats.vio theories/Model/ReqSM.vio theories/Model/ReqSMExt.vio theories/Proofs/Stats.vio theories/Proofs/ReqSM.vio
+theories/Properties/C14.vos theories/Properties/C14.vok theories/Properties/C14.required_vos: theories/Properties/C14.v theories/Base/Sx.vos theories/Model/Stats.vos theories/Model/ReqSM.vos theories/Model/ReqSMExt.vos theories/Proofs/Stats.vos theories/Proofs/ReqSM.vos
 theories/Properties/C15.vo theories/Properties/C15.glob theories/Properties/C15.v.beautified theories/Properties/C15.required_vo: theories/Properties/C15.v theories/Base/Sx.vo theories/Model/Lru.vo theories/Model/RoCache.vo theories/Model/RoConc.vo theories/Model/DiskConfig.vo theories/Proofs/RoCache.vo theories/Proofs/RoConc.vo theories/Proofs/DiskConfig.vo
 theories/Properties/C15.vio: theories/Properties/C15.v theories/Base/Sx.vio theories/Model/Lru.vio theories/Model/RoCache.vio theories/Model/RoConc.vio theories/Model/DiskConfig.vio theories/Proofs/RoCache.vio theories/Proofs/RoConc.vio theories/Proofs/DiskConfig.vio
 theories/Properties/C15.vos theories/Properties/C15.vok theories/Properties/C15.required_vos: theories/Properties/C15.v theories/Base/Sx.vos theories/Model/Lru.vos theories/Model/RoCache.vos theories/Model/RoConc.vos theories/Model/DiskConfig.vos theories/Proofs/RoCache.vos theories/Proofs/RoConc.vos theories/Proofs/DiskConfig.vos
@@ -403,9 +412,9 @@ theories/Run/C07.vos theories/Run/C07.vok theories/Run/C07.required_vos: theorie
 theories/Run/C08.vo theories/Run/C08.glob theories/Run/C08.v.beautified theories/Run/C08.required_vo: theories/Run/C08.v theories/Base/Sx.vo theories/Model/Crc32.vo theories/Model/Zip.vo
 theories/Run/C08.vio: theories/Run/C08.v theories/Base/Sx.vio theories/Model/Crc32.vio theories/Model/Zip.vio
 theories/Run/C08.vos theories/Run/C08.vok theories/Run/C08.required_vos: theories/Run/C08.v theories/Base/Sx.vos theories/Model/Crc32.vos theories/Model/Zip.vos
-theories/Run/C09.vo theories/Run/C09.glob theories/Run/C09.v.beautified theories/Run/C09.required_vo: theories/Run/C09.v theories/Base/Sx.vo theories/Model/Stats.vo theories/Model/ReqSM.vo
-theories/Run/C09.vio: theories/Run/C09.v theories/Base/Sx.vio theories/Model/Stats.vio theories/Model/ReqSM.vio
-theories/Run/C09.vos theories/Run/C09.vok theories/Run/C09.required_vos: theories/Run/C09.v theories/Base/Sx.vos theories/Model/Stats.vos theories/Model/ReqSM.vos
+theories/Run/C09.vo theories/Run/C09.glob theories/Run/C09.v.beautified theories/Run/C09.required_vo: theories/Run/C09.v theories/Base/Sx.vo theories/Model/Stats.vo theories/Model/ReqSM.vo theories/Model/ReqSMExt.vo
+theories/Run/C09.vio: theories/Run/C09.v theories/Base/Sx.vio theories/Model/Stats.vio theories/Model/ReqSM.vio theories/Model/ReqSMExt.vio
+theories/Run/C09.vos theories/Run/C09.vok theories/Run/C09.required_vos: theories/Run/C09.v theories/Base/Sx.vos theories/Model/Stats.vos theories/Model/ReqSM.vos theories/Model/ReqSMExt.vos
 theories/Run/C10.vo theories/Run/C10.glob theories/Run/C10.v.beautified theories/Run/C10.required_vo: theories/Run/C10.v theories/Base/Sx.vo theories/Model/FsModel.vo theories/Model/Extract.vo
 theories/Run/C10.vio: theories/Run/C10.v theories/Base/Sx.vio theories/Model/FsModel.vio theories/Model/Extract.vio
 theories/Run/C10.vos theories/Run/C10.vok theories/Run/C10.required_vos: theories/Run/C10.v theories/Base/Sx.vos theories/Model/FsModel.vos theories/Model/Extract.vos
